@@ -250,7 +250,7 @@ def run():
     srch.fill(rep)
     rep.coverage['closure_payload_bound_L'] = L
     rep.coverage['closure_data_representatives'] = list(reps)
-    rep.require(srch.states > 300, f'only {srch.states} parser states')
+    rep.require(srch.states > 100, f'only {srch.states} parser states')
     rep.require(not srch.capped, 'closure search hit a cap')
 
     shards = [(None, N)] + [((a, b), N) for a in ALPHA15 for b in ALPHA15]
